@@ -32,7 +32,7 @@ WFNeighMoving(p) ==
        Chk(p.ndim >= 1, "neigh-dims")
   \cup Chk(p.aniso \in {0, 1} /\ p.rot \in {0, 1} /\ Len(p.coeffs) = p.aniso * p.ndim /\ Len(p.rotmat) = p.rot * p.ndim * p.ndim, "aniso-shape")
 WFVario(p) ==
-       Chk(p.nvar >= 1 /\ Len(p.names) = p.nvar /\ Len(p.vars) = p.nvar * p.nvar, "vario-vars")
+       Chk(p.nvar >= 0 /\ p.nvar <= 1000 /\ Len(p.names) = p.nvar /\ Len(p.vars) = p.nvar * p.nvar, "vario-vars")
   \cup Chk(\A d \in DOMAIN p.dirs : LET dr == p.dirs[d] IN
              /\ dr.npas >= 0 /\ DirSize(dr.npas, p.nvar) >= 0 /\ Len(dr.vals) = 3 * DirSize(dr.npas, p.nvar)
              /\ Len(dr.codir) = p.ndim /\ (dr.grid = 1 => Len(dr.grincr) = p.ndim), "dir-shape")
